@@ -10,6 +10,8 @@ import JominiModel.Props.C16
 import JominiModel.Proofs.TextReaderTotal
 import JominiModel.Proofs.BinDeTotal
 import JominiModel.Proofs.TextDeTotal
+import JominiModel.Proofs.TextTapeDomWf
+import JominiModel.Proofs.TextTapeJsonWf
 /-
 C05 — No input can crash, hang or escape memory bounds in any entry point.
 
@@ -94,5 +96,25 @@ integer (`month_day_from_julian`'s `unreachable!` is unreachable). -/
 theorem C05_date_parse_total : type_of% @C13.C13_no_panic_parse := @C13.C13_no_panic_parse
 
 theorem C05_date_from_binary_total : type_of% @C13.C13_no_overflow_from_binary := @C13.C13_no_overflow_from_binary
+
+/-- UNCONDITIONAL form for the whole text chain `bytes → tape → DOM readers / JSON`: for EVERY
+byte string the text tape parser model accepts, the DOM readers over the resulting tape never
+index outside it and JSON conversion returns for every option combination, encoding and entry
+point — the structural hypothesis of `C05_dom_total` / `C05_json_total` is discharged by the
+parser invariants `C17_parsed_tape_wf` and `C16_parsed_tape_wf` (no runtime-checked hypothesis
+is left on this path). -/
+theorem C05_text_chain_total (input : Bytes) (T : List TextTape.Tok) (b : Bool)
+    (h : TextTape.parse input = .ok T b) :
+    (∀ vi, vi < (TextTape.toDomTape T).size →
+        (∃ r, Dom.readObject (TextTape.toDomTape T) vi = .ok r) ∧
+        (∃ r, Dom.readArray (TextTape.toDomTape T) vi = .ok r)) ∧
+    (∀ (o : Json.Opts) (enc : Json.Enc) (entry : Json.Entry),
+        ∃ r, Json.toJson o enc entry (TextTape.toJsonTape T) = .ok r) := by
+  have hd := TextTape.C17_parsed_tape_wf input T b h
+  have hj := TextTape.C16_parsed_tape_wf input T b h
+  refine ⟨fun vi hvi => ?_, fun o enc entry => C16.C16_total_all _ hj o enc entry⟩
+  obtain ⟨h1, _⟩ := C05_dom_total _ hd
+  obtain ⟨a, b', _⟩ := h1 vi hvi
+  exact ⟨a, b'⟩
 
 end Jomini.Props.C05
